@@ -1,11 +1,12 @@
 #!/bin/bash
-# usage: seed_check.sh <prop-id> <mutant-name> [extra check args]: applies the patch to /repo, runs the property's quick check, reverts.
-id=$1; name=$2; shift 2
-src=/tmp/seed_$id/out/$name
-[ -d /verif/seeded/${id}_$name ] && src=/verif/seeded/${id}_$name
+# usage: seed_check.sh <prop-id> <mutant-name> [check-prop]: applies the seeded patch to /repo, runs the quick check of
+# check-prop (default: the mutant's own property), reverts /repo.
+id=$1; name=$2; cp=${3:-$1}
+src=/verif/seeded/${id}_$name
+[ -d $src ] || src=/tmp/seed_$id/out/$name
 cd /repo && git status --short | grep -v '^??' | head -1 | grep -q . && { echo "repo dirty"; exit 2; }
-git -C /repo apply $src/patch.diff || { echo "CHECK $id/$name: patch does not apply"; exit 2; }
-cd /verif && timeout 2400 ./check $id quick "$@" > /verif/out/seedcheck_${id}_$name.log 2>&1; rc=$?
-git -C /repo checkout -- . 
-nv=$(grep -c '^VIOLATION' /verif/out/seedcheck_${id}_$name.log)
-echo "CHECK $id/$name: exit=$rc violations=$nv $(grep -m1 'INCONCLUSIVE' /verif/out/seedcheck_${id}_$name.log | cut -c1-160)"
+git -C /repo apply $src/patch.diff || { echo "CHECK $id/$name by $cp: patch does not apply"; exit 2; }
+cd /verif && timeout 3000 ./check $cp quick > /verif/out/seedcheck_${id}_${name}_$cp.log 2>&1; rc=$?
+git -C /repo checkout -- .
+nv=$(grep -c '^VIOLATION' /verif/out/seedcheck_${id}_${name}_$cp.log)
+echo "CHECK $id/$name by $cp: exit=$rc violations=$nv $(grep -m1 'INCONCLUSIVE' /verif/out/seedcheck_${id}_${name}_$cp.log | cut -c1-160)"
